@@ -83,7 +83,8 @@ def run(module, cfg=None, wd=None, env=None, workers=1, simulate=None, depth=Non
         with open(os.path.join(wd, cfg + ".cfg"), "w") as f:
             f.write(cfg_text)
     meta = os.path.join(wd, "states-%d" % (time.time_ns() % 10**9))
-    cmd = ["java", "-XX:+UseParallelGC", "-Xmx" + heap, "-cp", JAR, "tlc2.TLC",
+    gc = "-XX:+UseSerialGC" if workers == 1 else "-XX:+UseParallelGC"
+    cmd = ["java", gc, "-Xmx" + heap, "-cp", JAR, "tlc2.TLC",
            "-workers", str(workers), "-metadir", meta, "-noGenerateSpecTE",
            "-config", cfg + ".cfg"]
     if simulate:
@@ -124,7 +125,7 @@ def run(module, cfg=None, wd=None, env=None, workers=1, simulate=None, depth=Non
 # M3 / M4: batch validation.  `records` is a list of JSON-able records; the Trace module reads
 # them with JsonDeserialize(IOEnv.TRACE_FILE) and prints one <<"VERDICT", i, "..">> per record.
 
-_VERDICT = re.compile(r'<<"VERDICT", (\d+), "([^"]*)">>')
+_VERDICT = re.compile(r'<<\s*"VERDICT",\s*(\d+),\s*"([^"]*)"\s*>>', re.S)   # TLC wraps long tuples over lines
 
 
 def judge(module, records, cfg=None, nproc=None, tag="judge", timeout=3600, extra_json=None, chunk_min=50):
@@ -158,8 +159,10 @@ def judge(module, records, cfg=None, nproc=None, tag="judge", timeout=3600, extr
                     raise TLCFailure("trace spec %s itself violated %s\n%s" % (module, r.violated, r.out[-3000:]))
                 for m in _VERDICT.finditer(r.out):
                     i = int(m.group(1)) - 1
-                    if 0 <= i < ln:
-                        verdicts[base + i] = m.group(2)
+                    if 0 <= i < ln and verdicts[base + i] != "ok":
+                        # several lines per record happen only for searching trace specs
+                        # (linearisation): one accepting path is enough
+                        verdicts[base + i] = re.sub(r"\s+", " ", m.group(2))
                 stats["states"] += r.distinct
                 stats["transitions"] += r.generated
                 stats["runs"] += 1
